@@ -225,7 +225,7 @@ func (x *Exec) solveAll(obls []*Oblig, cfg solveCfg) {
 			}
 		}
 	}
-	if len(late) > 0 && len(late) <= 12 && !cfg.all {
+	if len(late) > 0 && len(late) <= 6 && !cfg.all {
 		ch2 := make(chan *Oblig)
 		var wg2 sync.WaitGroup
 		for w := 0; w < 2; w++ {
@@ -350,7 +350,7 @@ func (x *Exec) solveOne(o *Oblig, prelude string, cfg solveCfg) {
 	}
 	if o.Status != "proved" && !cfg.all && o.Kind == "goal" {
 		// stage 3: a proof found under any solver seed is a proof; retry the two z3 versions with other seeds
-		for _, sd := range []int{7, 23} {
+		for _, sd := range []int{7} {
 			for _, base := range solvers(cfg.timeoutS)[:2] {
 				sp := base
 				sp.hdr += fmt.Sprintf("(set-option :smt.random_seed %d)\n(set-option :sat.random_seed %d)\n", sd, sd)
